@@ -57,7 +57,8 @@ class Rate34Data(BitsInterface):
 
         self.crc9: int = crc9 if isinstance(crc9, int) else ba2int(crc9[::-1])
         calculated_crc9 = self.calculate_crc9()
-        if self.crc9 <= 0:
+        if isinstance(crc9, int) and self.crc9 <= 0:
+            # generate only when built from fields, a received (parsed) all-zero CRC-9 is checked as is
             self.crc9 = calculated_crc9
         self.crc9_ok: bool = self.crc9 == calculated_crc9
 
